@@ -158,7 +158,10 @@ def run(tier, seed):
         out_hist[kind] = out_hist.get(kind, 0) + 1
         if kind == "HANG":
             hangs += 1
-            if len(data) <= 4096 and b"@include" not in data:
+            low = data.lower().replace(header.encode().lower(), b"")      # (the fixed header's macros are not recursive)
+            # (the property is about non-recursive macros and includes: an input that defines a macro or
+            # includes a file may legitimately expand for ever, so only inputs without them count)
+            if len(data) <= 4096 and b"@include" not in low and b"@macro" not in low:
                 chk.violation(f"hang:{fam}", f"the assembler did not terminate on a {len(data)}-byte input ({arch}): {data[:300]!r}",
                               {"arch": arch, "source_hex": data.hex(), "source": data.decode("utf-8", "replace"), "opts": opts,
                                "how_to_rerun": "write the bytes to m.asm and run `timeout 10 az65 <arch> m.asm`"})
